@@ -9,7 +9,7 @@
 From Coq Require Import ZArith QArith List Bool Permutation.
 Import ListNotations.
 From TK Require Import Validate_Model Validate_Spec Validate_Proof Validate_Proof_Steps
-  Validate_Proof_Main Validate_Proof_Gen Validate_Proof_Order Validate_Proof_Bodies Validate_Float Validate_Float_Points Validate.
+  Validate_Proof_Main Validate_Proof_Gen Validate_Proof_Order Validate_Proof_Bodies Validate_Proof_Routes Validate_Float Validate_Float_Points Validate.
 
 (* ---- predicate objects of predicates.hpp, over all of Q *)
 Theorem in_range_semantics : forall n ty l u x,
@@ -405,6 +405,76 @@ Print Assumptions landmark_count_at_bound_binary64.
 
 Example landmark_count_at_bound_nonvacuous : (3 <= 47 <= 65536)%Z /\ count_of 47 (fbound ratio_bound 47) = 2%Z.
 Proof. split; [split; discriminate | vm_compute; reflexivity]. Qed.
+
+(* ---- wave 4: the state of a ParametersSet is map + duplicate record; gen_copying is what the translator reads from
+   the copy constructor and operator= of stichwort::ParametersSet.  Every C++ route from the comma expression to
+   embed() (copy construction, copy assignment into a fresh / previously used set, self-assignment, kwargs[], the
+   chain interface, the receiver of merge()) delivers the duplicate record the expression built. *)
+Theorem copy_construction_copies_both_members : forall o, copy_construct gen_copying o = o.
+Proof. exact gen_copy_construct. Qed.
+Print Assumptions copy_construction_copies_both_members.
+
+Theorem assignment_copies_both_members : forall t o, assign gen_copying t o = o.
+Proof. exact gen_assign. Qed.
+Print Assumptions assignment_copies_both_members.
+
+Theorem every_route_reports_duplicates : forall rt kws s,
+  comma_expression gen_container kws = Some s ->
+  exists q, arrives gen_container gen_copying rt s = Some q /\
+            (run_check gen_container q = CThrown SwMultiple <-> nodupb (map fst kws) = false).
+Proof. exact gen_route_reports_duplicates. Qed.
+Print Assumptions every_route_reports_duplicates.
+
+Example every_route_reports_duplicates_nonvacuous :
+  exists s, comma_expression gen_container
+              [(kw_num_neighbors, VIndex 4); (kw_num_neighbors, VIndex 5); (kw_method, VMethod Isomap)] = Some s.
+Proof. eexists. reflexivity. Qed.
+
+Theorem every_route_keeps_explicit_values : forall rt kws s k v,
+  comma_expression gen_container kws = Some s -> pm_lookup k (ps_map s) = Some v ->
+  exists q, arrives gen_container gen_copying rt s = Some q /\ pm_lookup k (ps_map q) = Some v.
+Proof. exact gen_route_keeps_values. Qed.
+Print Assumptions every_route_keeps_explicit_values.
+
+Example every_route_keeps_explicit_values_nonvacuous :
+  exists s, comma_expression gen_container [(kw_num_neighbors, VIndex 7)] = Some s /\
+            pm_lookup kw_num_neighbors (ps_map s) = Some (VIndex 7).
+Proof. eexists. split; reflexivity. Qed.
+
+(* embed() on the set that arrives by a route without merge() is embed() on the expression: trace and outcome *)
+Theorem every_merge_free_route_same_outcome : forall rt r,
+  merge_free rt = true -> exec_via gen_container gen_copying rt gen_tables r = Some (exec gen_tables r).
+Proof. exact gen_exec_via. Qed.
+Print Assumptions every_merge_free_route_same_outcome.
+
+Example every_merge_free_route_nonvacuous :
+  merge_free (RtSelfAssign (RtAssign (ps_build used_with_duplicate) (RtChain (RtKwargs (RtCopy RtDirect))))) = true.
+Proof. reflexivity. Qed.
+
+(* the routes harness/c14.cpp drives (route_of_id: same numbering) are merge-free, except number 8 (merge receiver) *)
+Theorem harness_routes_merge_free : forall id self rt,
+  route_of_id id self = Some rt -> id <> 8%nat -> merge_free rt = true.
+Proof. exact gen_harness_routes_merge_free. Qed.
+Print Assumptions harness_routes_merge_free.
+
+Example harness_routes_nonvacuous : route_of_id 4 [] = Some (RtAssign (ps_build used_with_duplicate) RtDirect) /\ 4%nat <> 8%nat.
+Proof. split; [reflexivity | discriminate]. Qed.
+
+(* regression (seeded change C14_4): operator= as copy-and-swap that exchanges only the map *)
+Theorem assignment_forgetting_duplicates_refuted :
+  nodupb (map fst dup_expr) = false /\
+  exists q, arrives gen_container swap_map_only (RtAssign ps_empty RtDirect) (ps_build dup_expr) = Some q /\
+            run_check gen_container q = CNormal q.
+Proof. exact swap_map_only_loses_duplicates. Qed.
+Print Assumptions assignment_forgetting_duplicates_refuted.
+
+Theorem assignment_keeping_stale_duplicates_refuted :
+  nodupb (map fst valid_expr) = true /\
+  exists q, arrives gen_container swap_map_only (RtAssign (ps_build used_with_duplicate) RtDirect)
+                    (ps_build valid_expr) = Some q /\
+            run_check gen_container q = CThrown SwMultiple.
+Proof. exact swap_map_only_keeps_stale_duplicates. Qed.
+Print Assumptions assignment_keeping_stale_duplicates_refuted.
 
 (* ---- regression: the stage order of the tree before repair F27 (no checkTypes) *)
 Theorem old_code_documented_when_well_typed : forall r, well_typed r ->
